@@ -10,7 +10,9 @@
      C02_unescape_po                       eval_stringlist on rendered tokens = their meaning
      C02_unescape_properties               val on rendered tokens = their meaning
      C02_roundtrip_properties_partial      single-record files  key sep value newline
-   Stated, not proved (see the end of the file): the block theorem blocks_properties and
+     C02_blocks_properties, C02_roundtrip_properties_multi   block theorem, .properties
+     C02_blocks_ini, C02_roundtrip_ini_multi                 block theorem, .ini
+   Stated, not proved (see the end of the file): what is still missing of
    C02_roundtrip_<fmt> of DESIGN.md section 4; those clauses are covered by the
    implementation-only oracle of harness/props/c02.py (printed files, all seven formats). *)
 From Coq Require Import NArith List Bool Arith Lia.
@@ -18,6 +20,7 @@ From CL Require Import Base.Sx Base.Res Base.Str Regex.Rx Model.Entry Model.Pars
   Model.ParseFormats Generated.RxParser Generated.RxC02 Generated.C02Facts Model.Unescape
   Proofs.C02License Proofs.UnescapeProofs Proofs.C02Po Proofs.C02Props Proofs.C02Roundtrip
   Proofs.C02Blocks.
+From CL Require Proofs.C02BlocksIni.
 Import ListNotations.
 
 (* ---- (a) the License rule -------------------------------------------------------------
@@ -218,10 +221,63 @@ Theorem C02_roundtrip_properties_multi : forall bs : list C02Blocks.block,
     filter (C02Blocks.is_kind KJunk) es = [].
 Proof. exact C02Blocks.C02_roundtrip_properties_multi. Qed.
 
+(* ---- the block theorem for .ini ------------------------------------------------------------
+   Proofs/C02BlocksIni.v.  An [iblock] is a run of whitespace, a standalone comment (lines
+   starting with ; or #), a section header [name], or an entity line key=value with an
+   optional attached comment (key and value taken as they stand, blanks included).
+   [legal_iblock]: a key does not start with whitespace, "[", ";" or "#" and contains no "="
+   or newline; a value contains no newline; a section name no "]", "=" or newline.
+   [iadjacent_ok] (boolean): a comment block or an entity with comment lines starts a line
+   (the comment expression is anchored at line starts); a comment block is followed by the
+   end of the file, a whitespace block containing a newline, or a section header; a block
+   without its final newline is the last one; an entity with comment lines below offset 2
+   does not have "License" in them (that case is C02_license_ini).
+   [ientries_of] computes the exact entry list from the blocks and their offsets. *)
+Theorem C02_blocks_ini : forall bs : list C02BlocksIni.iblock,
+  Forall C02BlocksIni.legal_iblock bs -> C02BlocksIni.iadjacent_ok bs ->
+  walk_ini (C02BlocksIni.ifile_text bs) = Ok (C02BlocksIni.ientries_of bs).
+Proof. exact C02BlocksIni.blocks_ini. Qed.
+
+(* the entities of the walk are exactly the records (key, value = raw value, attached
+   comment), the comment entries exactly the standalone comment blocks, the section entries
+   exactly the section names, in order, and there is NO junk:
+     iviews s es bs :=
+       map (entity_record s) (filter (is_kind KEntity) es) = irecords_of bs /\
+       map (fun e => span_text s (e_span e)) (filter (is_kind KComment) es) = icomments_of bs /\
+       map (fun e => opt_text s (e_val e)) (filter (is_kind KSection) es) = isections_of bs /\
+       filter (is_kind KJunk) es = []                                                     *)
+Theorem C02_roundtrip_ini_multi : forall bs : list C02BlocksIni.iblock,
+  Forall C02BlocksIni.legal_iblock bs -> C02BlocksIni.iadjacent_ok bs ->
+  exists es, walk_ini (C02BlocksIni.ifile_text bs) = Ok es /\
+             C02BlocksIni.iviews (C02BlocksIni.ifile_text bs) es bs.
+Proof. exact C02BlocksIni.roundtrip_ini_multi. Qed.
+
+(*  ; s / #       (standalone, in front of the section header)
+    [Str]
+    k=v
+    ;c / #d / "a b = x ; y"   (attached comment; key "a b ", value " x ; y")
+    <blank line>  ; s / #  <blank lines, indentation>  k=v  [Str]  <blank line>  k2=   *)
+Example C02_blocks_ini_example :
+  let A := C02BlocksIni.A in
+  let bs := [C02BlocksIni.ix_c; C02BlocksIni.ix_sec; C02BlocksIni.ix_e1; C02BlocksIni.ix_e2; C02BlocksIni.ix_b; C02BlocksIni.ix_c; C02BlocksIni.ix_b;
+             C02BlocksIni.ix_b2; C02BlocksIni.ix_e1; C02BlocksIni.ix_sec; C02BlocksIni.ix_b; C02BlocksIni.ix_e3] in
+  Forall C02BlocksIni.legal_iblock bs /\ C02BlocksIni.iadjacent_ok bs /\
+  C02BlocksIni.irecords_of bs =
+    [(A [107], A [118], None);
+     (A [97; 32; 98; 32], A [32; 120; 32; 59; 32; 121], Some (A [59; 99; 10; 35; 100]));
+     (A [107], A [118], None); (A [107; 50], [], None)] /\
+  C02BlocksIni.isections_of bs = [A [83; 116; 114]; A [83; 116; 114]] /\
+  map (fun e => (e_kind e, e_span e)) (C02BlocksIni.ientries_of bs) =
+  [(KComment, (0, 5)); (KWhitespace, (5, 6)); (KSection, (6, 11)); (KWhitespace, (11, 12));
+   (KEntity, (12, 15)); (KWhitespace, (15, 16)); (KEntity, (22, 33)); (KWhitespace, (33, 35));
+   (KComment, (35, 40)); (KWhitespace, (40, 45)); (KEntity, (45, 48)); (KWhitespace, (48, 49));
+   (KSection, (49, 54)); (KWhitespace, (54, 56)); (KEntity, (56, 59))].
+Proof. split; [repeat constructor|]. split; [vm_compute; reflexivity|]. repeat split. Qed.
+
 (* ---- stated, NOT PROVED ---------------------------------------------------------------------
    Still missing from the block theorem above: junk regions (inert garbage between records:
    "exactly the garbage is reported as junk"), blanks between a value and its newline,
    indentation between an attached comment and its key; and the whole statement
-   C02_roundtrip_<fmt> for dtd, ini, inc, po (nothing proved there beyond C01 and the license
-   and unescape theorems).  The executable counterpart of all of it is the oracle of
+   C02_roundtrip_<fmt> for dtd, inc, po (nothing proved there beyond C01 and the license
+   and unescape theorems); for ini also junk regions.  The executable counterpart of all of it is the oracle of
    harness/props/c02.py for all seven formats. *)
